@@ -32,6 +32,7 @@ CLASSES = [
          {"name": "ci", "type": "int", "read": True, "write": False, "notify": None, "constant": True},
          {"name": "ro", "type": "int", "read": True, "write": False, "notify": "roChanged"},
          {"name": "quiet", "type": "int", "read": True, "write": True, "notify": None},
+         {"name": "quietNext", "type": "VObj*", "read": True, "write": True, "notify": None},   # a writable pointer nobody announces
          {"name": "wo", "type": "int", "read": False, "write": True, "notify": None},
          {"name": "g", "type": "VGadget", "read": True, "write": True, "notify": "gChanged"},
          # two properties announced by ONE notify signal (as QAction's text / enabled / visible / ... all are by changed())
